@@ -348,14 +348,21 @@ func storeDomain(lines []string) []string {
 				delete(sc.insts, n)
 			}
 			out = append(out, "drop")
-		case "pub", "replaypub", "pubflaky":
+		case "pub", "replaypub", "pubflaky", "pubhookpanic":
 			// publish through a bus built on the store (options in either order, persistence timeout set):
 			// the handler looks the log up while it runs
 			in := sc.cur
 			rec := atoi(f[1])
 			if in.bus == nil {
 				opts := []eb.Option{eb.WithStore(in.st), eb.WithPersistenceTimeout(2 * time.Second),
-					eb.WithPersistenceErrorHandler(func(any, reflect.Type, error) { in.perrs++ })}
+					eb.WithPersistenceErrorHandler(func(any, reflect.Type, error) { in.perrs++ }),
+					eb.WithPanicHandler(func(any, reflect.Type, any) {}),
+					// a validating before-publish hook that panics for some events (record numbers ending in 999)
+					eb.WithBeforePublish(func(t reflect.Type, e any) {
+						if p, ok := e.(pubRec); ok && p.ID%1000 == 999 {
+							panic("validation hook rejects the event")
+						}
+					})}
 				if rec%2 == 1 {
 					opts[0], opts[1] = opts[1], opts[0]
 				}
@@ -382,6 +389,24 @@ func storeDomain(lines []string) []string {
 					out = append(out, "replaypub none")
 				} else {
 					out = append(out, "replaypub "+in.pubSeen)
+				}
+				break
+			}
+			if f[0] == "pubhookpanic" {
+				// the before-publish hook panics: whatever becomes of the publish, no handler may run without a record
+				func() {
+					defer func() { recover() }()
+					eb.Publish(in.bus, mkPub(rec))
+				}()
+				evs, _, _ := in.st.Read(context.Background(), eb.OffsetOldest, 0)
+				recorded := len(evs) > 0 && identify(evs[len(evs)-1], in.padded) == fmt.Sprint(rec)
+				switch {
+				case in.pubSeen == "handler-not-run" && !recorded:
+					out = append(out, "pubhookpanic aborted")
+				case in.pubSeen != "handler-not-run" && !recorded:
+					out = append(out, "!pubhookpanic the handlers ran although the event was never recorded")
+				default:
+					out = append(out, fmt.Sprintf("!pubhookpanic recorded=%v handler=%s", recorded, in.pubSeen))
 				}
 				break
 			}
